@@ -2998,7 +2998,12 @@ impl Server {
             _ => return Ok(RespFrame::error("ERR invalid decrement format")),
         };
         
-        match self.storage.incr_by(db, key, -decrement) {
+        let increment = match decrement.checked_neg() {
+            Some(n) => n,
+            None => return Ok(RespFrame::error("ERR increment or decrement would overflow")),
+        };
+        
+        match self.storage.incr_by(db, key, increment) {
             Ok(new_value) => Ok(RespFrame::Integer(new_value)),
             Err(e) => Ok(RespFrame::error(e.to_string())),
         }
